@@ -117,6 +117,10 @@ func (c *Catalog) LivePart(coll int64, name string) *Part {
 	return nil
 }
 
+// PartName: the name of the one user partition the operations of a database create (a harness may give the databases
+// different names, e.g. one that contains the default partition's name)
+var PartName = func(db int64) string { return "p" }
+
 // apply executes one op if it is legal in the current Catalog; returns false otherwise.
 func (c *Catalog) Apply(o Op) bool {
 	c.NowMs += 10
@@ -219,18 +223,19 @@ func (c *Catalog) Apply(o Op) bool {
 		return true
 	case "createPart":
 		x := c.NewestColl(o.DB, o.Name, "created")
-		if x == nil || c.LivePart(x.ID, "p") != nil {
+		pn := PartName(o.DB)
+		if x == nil || c.LivePart(x.ID, pn) != nil {
 			return false
 		}
 		c.nextID++
-		c.Parts = append(c.Parts, &Part{ID: c.nextID, Coll: x.ID, Name: "p", State: "created", CreateTs: c.Ts()})
+		c.Parts = append(c.Parts, &Part{ID: c.nextID, Coll: x.ID, Name: pn, State: "created", CreateTs: c.Ts()})
 		return true
 	case "dropPart":
 		x := c.NewestColl(o.DB, o.Name, "created")
 		if x == nil {
 			return false
 		}
-		p := c.LivePart(x.ID, "p")
+		p := c.LivePart(x.ID, PartName(o.DB))
 		if p == nil {
 			return false
 		}
